@@ -1,7 +1,6 @@
 package main
 
 import (
-	"verif/shim/vclock"
 	"bytes"
 	"compress/flate"
 	"context"
@@ -18,6 +17,7 @@ import (
 	"net/url"
 	"strings"
 	"time"
+	"verif/shim/vclock"
 
 	jose "github.com/go-jose/go-jose/v4"
 	"github.com/go-jose/go-jose/v4/jwt"
